@@ -116,7 +116,9 @@ class CFG:
                 self._edge(e, head.id, "back")
             self._loop.pop()
             else_in = self._new("join", st, "loop-else")
-            self._edge(head.id, else_in.id, "exhausted" if hasattr(st, "iter") else "false")
+            always = isinstance(st, ast.While) and isinstance(st.test, ast.Constant) and bool(st.test.value)
+            if not always:
+                self._edge(head.id, else_in.id, "exhausted" if hasattr(st, "iter") else "false")
             else_ends = self._block(st.orelse, [else_in.id])
             for e in else_ends:
                 self._edge(e, after.id)
